@@ -527,6 +527,19 @@ func (fc *FnCtx) buildQuery(o *Oblig) string {
 		}
 	}
 	for _, d := range fc.funDefs {
+		if strings.HasPrefix(d, "(define-fun-rec ") && !o.Cover {
+			// a recursive definition invites the solver to unfold it without end; an obligation whose goal does not
+			// mention the function gets only its signature (weaker assumptions, still sound)
+			rest := d[len("(define-fun-rec "):]
+			name := rest[:strings.Index(rest, " ")]
+			if !strings.Contains(o.goal, name) {
+				if sig, ok := recSignature(d); ok {
+					sb.WriteString(sig)
+					sb.WriteString("\n")
+					continue
+				}
+			}
+		}
 		sb.WriteString(d)
 		sb.WriteString("\n")
 	}
@@ -797,4 +810,75 @@ func (g *Gen) verifyRelational(fn *ssa.Function, sp *FuncSpec) *FnCtx {
 	}
 	fc.applyAxioms()
 	return fc
+}
+
+// recSignature turns "(define-fun-rec f ((a S)...) R body)" into "(declare-fun f (S...) R)".
+func recSignature(d string) (string, bool) {
+	rest := d[len("(define-fun-rec "):]
+	i := strings.Index(rest, " ")
+	if i < 0 {
+		return "", false
+	}
+	name := rest[:i]
+	rest = strings.TrimSpace(rest[i:])
+	// parameter list: balanced parentheses
+	if !strings.HasPrefix(rest, "(") {
+		return "", false
+	}
+	depth, j := 0, 0
+	for j = 0; j < len(rest); j++ {
+		if rest[j] == '(' {
+			depth++
+		} else if rest[j] == ')' {
+			depth--
+			if depth == 0 {
+				break
+			}
+		}
+	}
+	params := rest[1:j]
+	after := strings.TrimSpace(rest[j+1:])
+	// result sort: an atom or a balanced s-expression
+	var ret string
+	if strings.HasPrefix(after, "(") {
+		depth = 0
+		k := 0
+		for k = 0; k < len(after); k++ {
+			if after[k] == '(' {
+				depth++
+			} else if after[k] == ')' {
+				depth--
+				if depth == 0 {
+					break
+				}
+			}
+		}
+		ret = after[:k+1]
+	} else {
+		ret = after[:strings.IndexAny(after, " )")]
+	}
+	// sorts of the parameters: each "(name sort)" at depth 1
+	var sorts []string
+	depth = 0
+	start := -1
+	for k := 0; k < len(params); k++ {
+		switch params[k] {
+		case '(':
+			if depth == 0 {
+				start = k
+			}
+			depth++
+		case ')':
+			depth--
+			if depth == 0 && start >= 0 {
+				inner := strings.TrimSpace(params[start+1 : k])
+				sp := strings.Index(inner, " ")
+				if sp < 0 {
+					return "", false
+				}
+				sorts = append(sorts, strings.TrimSpace(inner[sp:]))
+			}
+		}
+	}
+	return "(declare-fun " + name + " (" + strings.Join(sorts, " ") + ") " + ret + ")", true
 }
